@@ -74,6 +74,7 @@ static bool stepC16(const Case &c, const Result &ref, RunStats &st,
 JP runC16(uint64_t runSeed, int64_t runIdx, const TierCfg &cfg) {
     Rng rng(runSeed);
     Gen gen(rng);
+    gen.boost = cfg.tier == "thorough" ? 1 : 0;
     RunStats st;
     Chain chain;
     std::set<std::string> probes;
